@@ -199,6 +199,16 @@ def _tests(xnp):
     T["eye"] += [(f"fresh n={n}", (n, None, np.float64, None), None, fresh_pred(lambda n_, m_, dt_, dev: xnp.eye(n_, m_, dtype=dt_, device=dev))) for n in (3,)]
     T["zeros"] = [("fresh", ((2, 3), np.float64, None), None, fresh_pred(lambda shp, dt_, dev: xnp.zeros(shp, dt_, dev)))]
     T["ones"] = [("fresh", ((2, 3), np.float64, None), None, fresh_pred(lambda shp, dt_, dev: xnp.ones(shp, dt_, dev)))]
+
+    # the frame analysis (vcgen/frame.py: ALLOC_FNS) treats the result of `cast` as a fresh array that may be updated in place: it must never be the input itself,
+    # in particular when the dtype already matches
+    def noalias_pred(got, a_, dt_):
+        got = xnp.cast(a_, dt_)      # (the predicate receives a snapshot of the arguments: call again on the array at hand)
+        if np.shares_memory(got, a_):
+            return "the result shares memory with the input array (cast to the dtype the array already has returns the caller's array)"
+        if not np.array_equal(got, a_.astype(dt_)):
+            return "values differ"
+    T["cast"] += [(f"fresh same dtype {k}", (a, a.dtype), None, noalias_pred) for k, a in _mats(rng, 2, 3, kinds=("f64", "c128"))]
     return T
 
 
